@@ -18,6 +18,7 @@ import (
 	"time"
 
 	"git.torproject.org/pluggable-transports/snowflake.git/v2/common/amp"
+	"strings"
 	"verif/vlib"
 )
 
@@ -100,6 +101,7 @@ func TestVerifC10(t *testing.T) {
 	section("error-classes", func() { h.errorClasses(root, refHead, refTail) })
 	section("hostile", func() { h.hostile(root) })
 	section("bounded", func() { h.bounded(root) })
+	section("streaming", func() { h.streaming(root) })
 	section("leak-probe", func() { h.leakProbe(refHead, refTail) })
 	res.Note("section_seconds", secs)
 
@@ -149,6 +151,7 @@ func TestVerifC10(t *testing.T) {
 	res.RequireObs("hostile_outcome_data", 1)
 	res.RequireObs("hostile_outcome_error", 1)
 	res.RequireObs("bounded_cases", int64(len(genCases)))
+	res.RequireObs("streaming_cases_streamed", 6)
 	res.RequireObs("boundary_lengths_probed", 40)
 }
 
@@ -571,6 +574,59 @@ func (h *H) bounded(root *vlib.Rand) {
 				continue
 			}
 			res.Obs("bounded_errtext_"+errClass(e), 1)
+		}
+	}
+}
+
+// streaming: inputs on which a decoder with bounded buffering MUST deliver data
+// as it goes: one never-ending pre element whose text arrives in small tokens
+// (valid 32-byte words, cut into ~4 KiB text tokens by inline tags or comments,
+// which the decoder ignores inside pre), and a never-ending sequence of small
+// elements. After 1 MiB (thorough: 4 MiB) of such input the decoded bytes delivered to the reader
+// must account for the input pulled, up to a bounded backlog; a decoder that has
+// pulled megabytes and delivered (almost) nothing is holding the input in memory.
+func (h *H) streaming(root *vlib.Rand) {
+	res := h.res
+	words4k := strings.Repeat(b64words(), 16) // 16 x 8 words of 32 bytes + newline = 4224 bytes
+	cases := []genCase{
+		{"one-element/inline-tags", "<pre>\n0", words4k + "<b></b>"},
+		{"one-element/comments", "<pre>\n0", words4k + "<!-- c -->"},
+		{"one-element/br", "<pre>\n0", words4k + "<br>"},
+		{"many-elements", "<pre>\n0", words4k + "</pre>\n<pre>\n"},
+	}
+	supply := int64(vlib.Scale(1<<20, 4<<20))
+	for gi, gc := range cases {
+		for _, maxRead := range []int{0, 1000} {
+			if h.abort {
+				return
+			}
+			g := &genReader{prefix: []byte(gc.prefix), pattern: []byte(gc.pattern), maxRead: maxRead, hardStop: supply}
+			id := fmt.Sprintf("streaming/%d/%d", gi, maxRead)
+			rc := mkrec(id, "generator", gc.name, "prefix", gc.prefix, "pattern_len", len(gc.pattern), "source_max_read", maxRead, "supplied_before_cut_off", supply)
+			res.Obs("streaming_cases", 1)
+			o := h.decode(id, rc, g, 4096, root.SplitN("streaming", gi), 8<<20)
+			if o.undecided() {
+				continue
+			}
+			pulled, _, _ := g.stats()
+			delivered := int64(len(o.data))
+			res.ObsMax("streaming_max_pulled", pulled)
+			res.Obs("streaming_bytes_delivered", delivered)
+			// 32 of every 33 bytes are base64 (3 decoded bytes per 4); tags and the
+			// version byte only lower the yield a little: at least half, less a backlog
+			const backlog = 256 << 10
+			need := (pulled - backlog) / 2
+			if pulled >= supply/2 && delivered < need {
+				res.Violatef("unbounded-buffering:held-back-inside-element", rc.with("pulled", pulled, "delivered", delivered, "error", errText(o.err())),
+					"generator %q: the decoder pulled %d bytes of well-formed armor and delivered only %d decoded bytes (at least %d expected with a %d-byte backlog): input is accumulated instead of streamed", gc.name, pulled, delivered, need, backlog)
+				continue
+			}
+			if pulled >= supply/2 {
+				res.Distinct("streaming:" + id)
+				res.Obs("streaming_cases_streamed", 1)
+			} else {
+				res.Obs("streaming_cases_ended_early_"+errClass(o.err()), 1)
+			}
 		}
 	}
 }
